@@ -93,10 +93,92 @@ class Normalise(ast.NodeTransformer):
         return ast.Assign(targets=[node.target], value=node.value)
 
 
-def normalised(node):
+SCOPES = (ast.FunctionDef, ast.AsyncFunctionDef, ast.Lambda, ast.ListComp, ast.SetComp, ast.DictComp, ast.GeneratorExp)
+DYNAMIC_NAMESPACE = {'locals', 'vars', 'eval', 'exec', 'globals', 'dir'}
+
+
+def local_renaming(fn):
+    """Canonical names for the function's own local variables (harmless renames must not break the tie).
+
+    Renamed: a name that is bound by a plain `Name` store in the function's OWN scope (assignment, augmented assignment,
+    for / with target, del) and is not a parameter.  Every occurrence of such a name inside the function (nested scopes
+    included: there it is either the closure variable or a shadowing local, and an injective renaming keeps both) is replaced by
+    `_L<k>`, k = order of first occurrence.  Not renamed, so that equal canonical forms imply equivalent functions: parameters
+    (keyword callers), names declared global / nonlocal, names bound anywhere by a construct that carries the name as a string
+    (nested def / class, `except … as`, import, match capture, arguments of nested functions and lambdas), walrus targets,
+    names bound only in nested scopes or comprehensions (outside they may denote a global), and everything when the function has
+    a nested class or uses locals() / vars() / eval / exec / globals() / dir()."""
+    if not isinstance(fn, (ast.FunctionDef, ast.AsyncFunctionDef)):
+        return {}
+    params = {a.arg for a in fn.args.args + fn.args.kwonlyargs + fn.args.posonlyargs} | \
+             {x.arg for x in (fn.args.vararg, fn.args.kwarg) if x}
+    excluded = set(params)
+    for n in ast.walk(fn):
+        if isinstance(n, ast.ClassDef):
+            return {}
+        if isinstance(n, ast.Name) and n.id in DYNAMIC_NAMESPACE:
+            return {}
+        if isinstance(n, (ast.Global, ast.Nonlocal)):
+            excluded.update(n.names)
+        elif isinstance(n, (ast.FunctionDef, ast.AsyncFunctionDef)) and n is not fn:
+            excluded.add(n.name)
+        elif isinstance(n, ast.ExceptHandler) and n.name:
+            excluded.add(n.name)
+        elif isinstance(n, ast.alias):
+            excluded.add((n.asname or n.name).split('.')[0])
+        elif isinstance(n, (ast.MatchAs, ast.MatchStar)) and n.name:
+            excluded.add(n.name)
+        elif isinstance(n, ast.MatchMapping) and n.rest:
+            excluded.add(n.rest)
+        elif isinstance(n, ast.NamedExpr) and isinstance(n.target, ast.Name):
+            excluded.add(n.target.id)
+        if isinstance(n, (ast.FunctionDef, ast.AsyncFunctionDef, ast.Lambda)) and n is not fn:
+            a = n.args
+            excluded.update(x.arg for x in a.args + a.kwonlyargs + a.posonlyargs)
+            excluded.update(x.arg for x in (a.vararg, a.kwarg) if x)
+    own = set()
+
+    def scan(node):
+        for ch in ast.iter_child_nodes(node):
+            if isinstance(ch, SCOPES):
+                # default values, decorators and the outermost iterable are evaluated in the enclosing scope but bind nothing there
+                continue
+            if isinstance(ch, ast.Name) and isinstance(ch.ctx, (ast.Store, ast.Del)):
+                own.add(ch.id)
+            scan(ch)
+    scan(fn)
+    ren = own - excluded
+    order = {}
+    for _, n in all_paths(fn):
+        if isinstance(n, ast.Name) and n.id in ren and n.id not in order:
+            order[n.id] = f'_L{len(order)}'
+    return order
+
+
+def apply_renaming(node, ren):
+    if ren:
+        for n in ast.walk(node):
+            if isinstance(n, ast.Name) and n.id in ren:
+                n.id = ren[n.id]
+    return node
+
+
+def rename_text(text, ren):
+    """canonical spelling of a site parameter key (an unparsed sub-expression)"""
+    if not ren:
+        return text
+    try:
+        return ast.unparse(apply_renaming(ast.parse(text, mode='eval'), ren))
+    except SyntaxError:
+        return text
+
+
+def normalised(node, rename=True):
     import copy
     n = Normalise().visit(copy.deepcopy(node))
     ast.fix_missing_locations(n)
+    if rename:
+        apply_renaming(n, local_renaming(n))
     return n
 
 
@@ -645,6 +727,8 @@ def translate(prop: str, repo: str, write=True):
         for s in a.get('sites', []):
             if s['name'] not in exprs:
                 continue
+            if s['name'] in sk.get('params', {}):      # keys spelled with the canonical local names (recorded by --init)
+                s = dict(s, params={k: tuple(v) for k, v in sk['params'][s['name']]})
             try:
                 defs.append(site_def(s['name'], exprs[s['name']], s))
                 details['translated'] += 1
@@ -687,10 +771,19 @@ def init(props, repo='/repo'):
             node = find_node(parse_file(repo, a['file']), a['qual'])
             if node is None:
                 raise SystemExit(f'{prop}: {a["file"]}:{a["qual"]} not found')
+            plain = normalised(node, rename=False)             # sites are located by their source spelling
+            paths = {s['name']: locate_site(plain, s) for s in a.get('sites', [])}
+            ren = local_renaming(plain)
             norm = normalised(node)
-            paths = {s['name']: locate_site(norm, s) for s in a.get('sites', [])}
             text, _ = skeleton_text(norm, paths)
-            json.dump({'file': a['file'], 'qual': a['qual'], 'sites': paths, 'skeleton': text},
+            cparams = {}
+            for s in a.get('sites', []):
+                items = []
+                for k, v in s.get('params', {}).items():
+                    v = tuple(v) if isinstance(v, (list, tuple)) else (v, 'Int')
+                    items.append([rename_text(k, ren), list(v)])
+                cparams[s['name']] = items
+            json.dump({'file': a['file'], 'qual': a['qual'], 'sites': paths, 'params': cparams, 'renamed_locals': ren, 'skeleton': text},
                       open(os.path.join(SKEL_DIR, prop, anchor_id(a) + '.json'), 'w', encoding='utf-8'), indent=1)
         b, d = translate(prop, repo)
         print(prop, 'anchors', d['anchors'], 'sites', d['sites'], 'translated', d['translated'], 'broken', b)
